@@ -198,7 +198,7 @@ func c03isIdentRune(r rune) bool { return r == '_' || unicode.IsLetter(r) || uni
 // c03shape replaces every unexported identifier that is selected from something (".name"), indexed ("name[") or
 // named as an optional field's owner ("optional name.") by a placeholder numbered by first occurrence.
 func c03shape(s string) string {
-	rs := []rune(s)
+	rs := []rune(c03sortArgs(s))
 	var sb strings.Builder
 	names := map[string]int{}
 	for i := 0; i < len(rs); {
@@ -246,6 +246,57 @@ func c03shape(s string) string {
 			sb.WriteString(id)
 		}
 		i = j
+	}
+	return sb.String()
+}
+
+// c03sortArgs orders the comma-separated parts of every parenthesised group (recursively), so that a reordering of
+// the parameters of a helper named in a guard does not change the shape.
+func c03sortArgs(s string) string {
+	rs := []rune(s)
+	var rec func(i int) (string, int)
+	rec = func(i int) (string, int) {
+		// parses up to the matching ')' or end; returns canonical text and the index after it
+		var parts []string
+		var cur []rune
+		for i < len(rs) {
+			switch rs[i] {
+			case '(':
+				inner, j := rec(i + 1)
+				cur = append(cur, '(')
+				cur = append(cur, []rune(inner)...)
+				cur = append(cur, ')')
+				i = j
+				continue
+			case ')':
+				parts = append(parts, string(cur))
+				if len(parts) > 1 {
+					sort.Strings(parts)
+				}
+				return strings.Join(parts, ","), i + 1
+			case ',':
+				parts = append(parts, string(cur))
+				cur = nil
+				i++
+				continue
+			}
+			cur = append(cur, rs[i])
+			i++
+		}
+		parts = append(parts, string(cur))
+		return strings.Join(parts, ","), i
+	}
+	// top level: do not sort (commas outside parentheses are prose)
+	var sb strings.Builder
+	for i := 0; i < len(rs); {
+		if rs[i] == '(' {
+			inner, j := rec(i + 1)
+			sb.WriteString("(" + inner + ")")
+			i = j
+			continue
+		}
+		sb.WriteRune(rs[i])
+		i++
 	}
 	return sb.String()
 }
